@@ -7,6 +7,7 @@ import (
 	"os"
 	"os/exec"
 	"path/filepath"
+	"runtime"
 	"runtime/debug"
 	"strings"
 	"time"
@@ -138,6 +139,32 @@ var kC08Lib = run.NewKind("c08.library", func(c *run.Ctx, t c08Lib) *run.Fail {
 		c.Nontrivial(t.SrcHex + run.Canon(t.Input.V))
 	}
 	c.Count("outputs", int64(outs))
+	return nil
+})
+
+// ---- size guards: bounded requests must fail as values, not exhaust memory ----
+
+type c08Guard struct{ Src string }
+
+var kC08Guard = run.NewKind("c08.guard", func(c *run.Ctx, t c08Guard) *run.Fail {
+	res := run.Compile(t.Src)
+	if res.Code == nil {
+		return run.Failf("harness: %q does not compile: %v", t.Src, res.Err)
+	}
+	var m0, m1 runtime.MemStats
+	runtime.ReadMemStats(&m0)
+	tr := run.RunCode(res.Code, nil, nil, 100000, 5)
+	runtime.ReadMemStats(&m1)
+	if tr.End == run.EndPanic {
+		return run.Failf("%q panicked: %s", t.Src, tr.Panic)
+	}
+	if tr.End != run.EndError || len(tr.Vals) != 0 {
+		return run.Failf("%q asks for an absurdly large result and must fail with an error value, got %s", t.Src, run.TraceDesc(tr))
+	}
+	if d := m1.TotalAlloc - m0.TotalAlloc; d > 256<<20 {
+		return run.Failf("%q allocated %d MiB before failing (%v)", t.Src, d>>20, tr.Err)
+	}
+	c.Nontrivial(t.Src)
 	return nil
 })
 
@@ -390,7 +417,7 @@ func c08RandomCLI(r *rand.Rand) c08CLI {
 func init() {
 	run.Register(&run.Prop{
 		ID: "C08", Level: "exploration", MinNontrivial: 5000,
-		Rule: "library: a case is (query bytes, input, variable value). Parse, String, Compile, Run/Next (300 outputs, instruction budget, advancing after error values), Marshal, Preview, TypeOf and every error's text are called under recover(); a ParseError's Offset must lie in [0,len] with len(Token) <= Offset; emitted values must consist of the supported Go types; a process-fatal error (stack overflow, concurrent map writes, ...) kills the worker and is attributed to the case by the journal. Queries: byte- and token-level mutations of every corpus query, calls of every builtin name/arity from `builtins` and of the user-reachable `_`-prefixed internals with wrong-typed, boundary and wrong-arity arguments in path/update/try/limit contexts; inputs: the type universe in every Go number representation incl. NaN/Inf/invalid UTF-8/nil containers. command: random combinations of every flag of the command with valid and invalid arguments, queries, stdin bytes and files; stderr is scanned for a Go stack trace and the exit status must be a documented one (0-5, or the halt_error code); thorough also injects write(ENOSPC)/read(EIO) faults on the n-th call with strace. Resource exhaustion (budget, heap limit, timeout) is counted as inconclusive. Non-trivial = distinct cases (library: query longer than 2 bytes).",
+		Rule:        "library: a case is (query bytes, input, variable value). Parse, String, Compile, Run/Next (300 outputs, instruction budget, advancing after error values), Marshal, Preview, TypeOf and every error's text are called under recover(); a ParseError's Offset must lie in [0,len] with len(Token) <= Offset; emitted values must consist of the supported Go types; a process-fatal error (stack overflow, concurrent map writes, ...) kills the worker and is attributed to the case by the journal. Queries: byte- and token-level mutations of every corpus query, calls of every builtin name/arity from `builtins` and of the user-reachable `_`-prefixed internals with wrong-typed, boundary and wrong-arity arguments in path/update/try/limit contexts; inputs: the type universe in every Go number representation incl. NaN/Inf/invalid UTF-8/nil containers. command: random combinations of every flag of the command with valid and invalid arguments, queries, stdin bytes and files; stderr is scanned for a Go stack trace and the exit status must be a documented one (0-5, or the halt_error code); thorough also injects write(ENOSPC)/read(EIO) faults on the n-th call with strace. Resource exhaustion (budget, heap limit, timeout) is counted as inconclusive. Non-trivial = distinct cases (library: query longer than 2 bytes).",
 		Assumptions: []string{"programs that legitimately need unbounded time or memory are outside the claim: instruction budget, 3 GiB heap watchdog and timeouts classify them as inconclusive", "a stack overflow within the instruction budget is a violation (it means unbounded recursion on a bounded value)"},
 		Body: func(c *run.Ctx) {
 			r := c.Rand("c08")
@@ -440,6 +467,10 @@ func init() {
 					src += []string{" | ", ", ", " + ", " // "}[r.IntN(4)] + builtinCall(r, names)
 				}
 				emit(src)
+			}
+			for _, src := range []string{".[536870912] = 1", ".[1e10] = 1", "setpath([1e9]; 1)", "[1] | .[536870912] = 1", "null | .[4000000000] |= 1", "[] | .[999999999999] += 1", "{} | .a[536870912] = 1",
+				"\"abcdefgh\" * 1e9", "\"ab\" * 2147483647", "\"abcdefghijklmnop\" * 300000000", "[.[536870912]?] | .[0][1e12] = 1", ".[1e18] = 0", "null | setpath([0, 1e10]; 1)", ".[9223372036854775807] = 1", ".[18446744073709551616] = 1", ".[1e300] = 1"} {
+				kC08Guard.Do(c, c08Guard{Src: src})
 			}
 			k := c.N(3000, 60000)
 			for i := 0; i < k; i++ {
